@@ -181,21 +181,24 @@ def clause_index(prog, rep, sch):
     fs = prog.find(adt="MdkMemoryStorage", name="save_group", trait="GroupStorage")
     rep.floor("routing-index", "<MdkMemoryStorage as GroupStorage>::save_group", len(fs), 1)
     for f in fs:
-        pops = [c for c in f.live_calls() if c.name == "pop" and "p" in c.args[0]]
+        # save_group itself and the same-crate helpers it hands the record to (`inner.put_group(group)`)
+        fam = [f] + [t for c in f.live_calls() for t in prog.call_targets(c) if t.crate == f.crate and not t.is_closure() and not t.is_test_like() and t.path != f.path]
         stale_ok = False
-        for c in pops:
-            cds = A.control_dependent_switches(f, c.bb)
-            for w in cds:
-                l = A._opl(f.term(w)["discr"])
-                dep, calls, _ = f.depends_on(l)
-                if any(x.name in ("ne", "eq") for x in calls):
-                    og = A.origins(prog, f, c.args[-1]["p"][0], scope=None, max_frames=0)
-                    if "nostr_group_id" in og.fields:
-                        stale_ok = True
+        for g in fam:
+            for c in g.live_calls():
+                if not (c.name == "pop" and "p" in c.args[0]):
+                    continue
+                for w in A.control_dependent_switches(g, c.bb):
+                    l = A._opl(g.term(w)["discr"])
+                    dep, calls, _ = g.depends_on(l)
+                    if any(x.name in ("ne", "eq") for x in calls):
+                        og = A.origins(prog, g, c.args[-1]["p"][0], scope=None, max_frames=0)
+                        if "nostr_group_id" in og.fields:
+                            stale_ok = True
         rep.check(stale_ok, "routing-index", "memory/stale-entry-removed",
                   "when a group's nostr_group_id changes the old index entry is removed",
                   "the memory backend keeps the old nostr_group_id -> group entry after a rotation: events for the old id still route to the group", f.loc())
-        puts = [c for c in f.live_calls() if c.name == "put"]
+        puts = [c for g in fam for c in g.live_calls() if c.name == "put"]
         rep.check(len(puts) >= 2, "routing-index", "memory/both-indexes-written", "both the primary map and the nostr-id index are written",
                   "save_group writes %d maps" % len(puts), f.loc())
         errs = [(bb, s) for bb, s in f.aggregates("GroupError", "InvalidParameters")]
@@ -304,3 +307,8 @@ def run(ctx, rep):
     clause_wiring(prog, rep, syncs)
     clause_routing(prog, rep)
     clause_index(prog, rep, sch)
+    import os
+    import sys
+    sys.path.insert(0, os.path.dirname(os.path.abspath(__file__)))
+    import c09
+    c09.clause_index_leaves_with_record(prog, rep, "routing-index")
